@@ -208,6 +208,8 @@ var printedForms = []string{`/u<a>`, `/t/u<a b>`, `/_<x>`, `_:b1`, `_:V1`, `_:No
 	`"true"^^type:bool`, `"-1"^^type:int64`, `"1.5e+07"^^type:float64`, `"a b"^^type:text`, `"[1 2 3]"^^type:blob`, `""^^type:text`,
 	// the witnesses of known finding D36 (a text ending with a backslash) and of fix ed4a530 (a predicate ID ending with one)
 	`"a\"^^type:text`, `"a\\"@[]`,
+	// the witness of known finding D38 (a node type ending with a backslash), and a type with a backslash elsewhere
+	`/a\<x>`, `/a\b<x>`,
 }
 
 func generatedPrintedForms(r *rng, n int) []string {
@@ -238,7 +240,7 @@ func generatedPrintedForms(r *rng, n int) []string {
 				s = p.String()
 			}
 		case 3:
-			ty, e1 := node.NewType("/t" + strings.ReplaceAll(word([]string{"a", "b", "/u", "1", "_", "-", "."}), "//", "/"))
+			ty, e1 := node.NewType("/t" + strings.ReplaceAll(word([]string{"a", "b", "/u", "1", "_", "-", ".", "\\"}), "//", "/"))
 			// any ID NewID accepts: also one that ends with a backslash (C:\tmp\)
 			id, e2 := node.NewID(word(nodeSafe) + []string{"x", "", "\\", "x\\"}[r.intn(4)])
 			if e1 == nil && e2 == nil {
@@ -375,8 +377,8 @@ func cmdLex(args []string) error {
 			ts := lexAll(in, 1)
 			found := "fail: printed form is not one token carrying exactly its text"
 			for _, t := range ts {
-				if t.Text == pf {
-					found = "ok"
+				if t.Text == pf && t.Type != lexer.ItemError {
+					found = "ok" // (an error token carrying the whole text is not the value's token)
 				}
 			}
 			fmt.Fprintln(g.impl, found)
